@@ -288,12 +288,44 @@ PROPS["C20"] = {
     "technique": "metamorphic re-runs (id renumbering, fresh hash seeds) + closure / contiguity / traced-schema monitors",
     "rule": "description x transformation (2 of 3 renumbered, all freshly deserialised); non-trivial = transformed run whose registry equals the baseline; distinct = (description, transformation, seed)",
     "lanes": [{"name": "clilab", "pkg": "clilab", "bin": "clilab", "workers": {"quick": 7, "thorough": 16}, "timeout": {"quick": 1200, "thorough": 7200}}],
-    "floors": {"quick": {"evaluations": 60, "distinct_nontrivial": 50, "renumbered_runs": 30, "enums_compared_with_declaration_order": 100, "protocol_types_compared_with_traced_schema": 100},
+    "floors": {"quick": {"evaluations": 80, "distinct_nontrivial": 70, "renumbered_runs": 50, "forced_cross_crate_collision_renumberings": 14, "dense_renumberings": 14, "affine_renumberings": 14},
                "thorough": {"evaluations": 3000, "distinct_nontrivial": 3000}},
     "must_cover": {"descriptions": ["bridge_echo", "cat_facts", "counter", "hello_world", "notes", "simple_counter", "tap_to_pay"],
                    "protocol_types": ["HttpRequest", "HttpResult", "HttpError", "KeyValueOperation", "KeyValueResult", "TimeRequest", "TimeResponse", "RenderOperation"]},
     "assumptions": ["the bundled crate descriptions are snapshots of the capability crates taken upstream; agreement with the traced schema is checked for the types as they are in /repo now"],
 }
+
+# ---------------------------------------------------------------------------
+# sanitizer lanes (same workloads, other builds)
+# ---------------------------------------------------------------------------
+
+def lane(name, pkg, binname, toolchain, prop_arg, args_q, args_t, wq, wt, tiers=("quick", "thorough"), tq=1200, tt=7200):
+    return {"name": name, "pkg": pkg, "bin": binname, "toolchain": toolchain, "prop_arg": prop_arg, "tiers": tiers,
+            "workers": {"quick": wq, "thorough": wt}, "timeout": {"quick": tq, "thorough": tt},
+            "args": {"quick": args_q, "thorough": args_t}}
+
+PROPS["C08"]["lanes"] += [
+    lane("schedlab-stress-tsan", "schedlab", "schedlab", "tsan", "C08", {"mode": "stress", "scenarios": 3000}, {"mode": "stress", "scenarios": 160000}, 2, 8),
+    lane("schedlab-stress-miri", "schedlab", "schedlab", "miri", "C08", {"mode": "stress", "scenarios": 8}, {"mode": "stress", "scenarios": 12 * 16}, 4, 16, tiers=("thorough",)),
+    lane("schedlab-random-miri", "schedlab", "schedlab", "miri", "C08", {"mode": "random", "scenarios": 8}, {"mode": "random", "scenarios": 8 * 16}, 4, 16, tiers=("thorough",)),
+]
+PROPS["C08"]["level_text"] += " Lanes: native forced (single and double preemption), native random, native stress, ThreadSanitizer stress (any report = violation), Miri stress/random with varied scheduler seeds in thorough (data races, UB and weak-memory effects in crossbeam / futures as crux uses them)."
+PROPS["C13"]["lanes"] += [
+    lane("cmdlab-asan-lsan", "cmdlab", "cmdlab", "asan", "C06", {"budget": 30000}, {"budget": 1600000}, 2, 16),
+    lane("cmdlab-core-asan-lsan", "cmdlab", "cmdlab", "asan", "C01", {"budget": 20000}, {"budget": 800000}, 2, 16),
+]
+PROPS["C13"]["level_text"] += " Lanes: the occupancy patterns; plus the cmdlab command and core workloads under AddressSanitizer + LeakSanitizer, where every case ends by dropping its Command / Core / Bridge with whatever work is outstanding: any leak report at exit is a violation."
+PROPS["C12"]["lanes"] += [
+    lane("bridgefuzz-asan", "cmdlab", "bridgefuzz", "asan", "C12", {"budget": 60}, {"budget": 8000}, 2, 16),
+    lane("bridgefuzz-miri", "cmdlab", "bridgefuzz", "miri", "C12", {"budget": 4}, {"budget": 32}, 4, 16, tiers=("thorough",)),
+]
+PROPS["C12"]["level_text"] += " Lanes: native (with the counting allocator), AddressSanitizer, and Miri in thorough (undefined behaviour on malformed input in the serde / bincode / erased-serde stack)."
+PROPS["C15"]["lanes"] += [
+    lane("httplab-miri", "caplab", "httplab", "miri", "C15", {"budget": 40}, {"budget": 60 * 16}, 4, 16, tiers=("thorough",)),
+]
+PROPS["C15"]["level_text"] += " Thorough adds a Miri lane over the same generator (the zero-copy `from_utf8_unchecked` path in response/decode.rs)."
+for _p, _n in (("C04", 30), ("C01", 20), ("C07", 30)):
+    PROPS[_p]["lanes"] += [lane("cmdlab-miri", "cmdlab", "cmdlab", "miri", _p, {"budget": 16}, {"budget": _n * 16}, 4, 16, tiers=("thorough",))]
 
 ENGINES = [
     {"name": "cmdlab", "path": "harness/cmdlab", "serves_properties": ["C01", "C02", "C03", "C04", "C05", "C06", "C07", "C09"],
